@@ -34,15 +34,18 @@ CLAIMED = {
                 ref="DESIGN.md §7 C05"),
     "C17": dict(engine="world-histories",
                 text="Cell-level model with a fault parameter (the k-th Drop callback of an operation panics, the operation stops where "
-                     "the code is unwound): proved safe for dropping a world, for overwriting a component and for clear (finding F8b, "
-                     "repaired by /repo f9f2365: the length is set before the components are dropped, read off the source) for "
-                     "every k; refuted with a witness for remove (finding F8a, known class K17a). On the real code a panic is "
-                     "injected into the k-th callback of every kind (Drop, Clone, Eq, Serialize, Deserialize, Debug) of every "
-                     "operation on small multi-column worlds, then every world is dropped under the auditing allocator: no value "
-                     "dropped twice, no block released twice or with a wrong layout; for remove/clear/overwrite the set of doubly "
-                     "dropped values is compared with the model's prediction. PARTIAL: clone_from (F8c; class K17c = a shared archetype of "
-                     "unequal length in source and destination, anything else under clone_from is reported), clone, serde, ==, "
-                     "Debug, shape changes and system bodies have no fault model; they are judged on the real code only.",
+                     "the code is unwound): proved safe for every k for dropping a world, for overwriting a component, for clear (finding "
+                     "F8b, repaired by /repo f9f2365) and for remove (finding F8a, repaired by /repo 2da519c: the row leaves every "
+                     "column and the length before any Drop runs); the orderings the proofs rest on are read off the source on every "
+                     "run (Gen/Facts.v), and the behaviour before each repair is kept as a refutation with a witness. On the real code "
+                     "a panic is injected into the k-th callback of every kind (Drop, Clone, Eq, Serialize, Deserialize, Debug) of every "
+                     "operation on small multi-column worlds; after the caught panic the dump of every world must still satisfy the "
+                     "index/storage invariant safe calls rely on unchecked (findings F11, repaired by f1ccfcd, and F8c, repaired by "
+                     "342a817), safe calls are made through every identifier issued so far, the world is cleared, and every world is "
+                     "dropped under the auditing allocator: no value dropped twice, no block released twice or with a wrong layout; for "
+                     "remove/clear/overwrite the set of doubly dropped values is compared with the model's prediction. PARTIAL: clone_from "
+                     "(ordering facts only), clone, serde, ==, Debug, shape changes and system bodies have no cell-level fault model; "
+                     "they are judged on the real code only.",
                 technique="Rocq proof/refutation over a cell-level fault model + exhaustive-position panic injection on the real library under a quarantining allocator",
                 ref="DESIGN.md §7 C17"),
     "C14": dict(engine="compile-family", note="CFAIL_NOTE",
